@@ -68,7 +68,17 @@ pub fn pick_scalar<R: Rng>(rng: &mut R, pool: &Pool) -> Fr {
             v[31] = rng.gen_range(0..20);
             Fr::from_slice(&v).unwrap()
         }
-        11 | 12 => Fr::from_slice(&pool.pick(rng)).unwrap(),
+        11 => Fr::from_slice(&pool.pick(rng)).unwrap(),
+        12 => {
+            // 64-bit limb patterns of the canonical value: zero limbs below non-zero ones, all-ones limbs, single bits
+            let mut v = [0u8; 32];
+            for l in 0..4 {
+                let limb: u64 = match rng.gen_range(0..6) { 0 | 1 => 0, 2 => 1, 3 => u64::MAX, 4 => 1u64 << 63, _ => rng.gen() };
+                v[8 * l..8 * l + 8].copy_from_slice(&limb.to_be_bytes());
+            }
+            v[0] &= 0x7f;
+            Fr::from_slice(&v).unwrap()
+        }
         _ => rand_fr(rng),
     }
 }
